@@ -262,7 +262,7 @@ def fault_sweep(r, nbase, kinds=("rej", "abe"), probe=False, kind="write", nk=9,
             c = dict(base)
             c["fault_at"] = [{"k": k, "kind": kind, "fault": kinds[(i + k) % len(kinds)], "err": r.choice(["transport", "-1", "210", "nocode"])}]
             c["family"] = base["family"] + "/%sfault@%d" % (kind, k)
-            out.append(add_probe(c) if probe else c)
+            out.append(add_probe(c, crash=(i + k) % 2 == 0) if probe else c)
     return out
 
 
@@ -319,6 +319,7 @@ def gen_for(prop):
             cs += [odd_case(r.fork()) for _ in range(20 * k)]
             cs += [odd_all_case(r.fork(), lo, lo + 12) for lo in range(0, 84, 12)]
             cs += crash_sweep(r, 2 * k, 3); cs += fault_sweep(r, 3 * k); cs += fault_sweep(r, 2 * k, kind="pay", nk=2)
+            cs += restart_fault_cases(r, 10 * k, probe=False)
             cs += walks(r, 300 if T else 50, families=("default", "faulty", "crashy", "slow"))
             if T:
                 cs += fault_sweep(r, 6, kind="read", nk=8); cs += walks(r, 60, families=("readfaults",))
@@ -331,6 +332,7 @@ def gen_for(prop):
             cs += crash_sweep(r, (22 if T else 5), 1 if T else 2, probe=True)
             cs += fault_sweep(r, 11 if T else 4, probe=True)
             cs += fault_sweep(r, 4 * k, kind="pay", nk=2, probe=True)
+            cs += restart_fault_cases(r, 20 * k, probe=True)
         elif prop == "C11":
             cs += timeout_cases(r, 40 * k)
             cs += restart_history_cases(r, 30 * k)
@@ -395,6 +397,35 @@ def restart_history_cases(r, n):
         out.append({"cfg": cfg, "invoices": b.invoices, "preimages": b.preimages, "_script": script, "suffix": [{"e": "finale"}],
                     "init": [{"h": 0, "state": {"pending_t_ms": dated, "gen": rr.below(3)}, "parts": rr.choice([[], ["fail"], ["fail", "fail"]])}],
                     "family": "restart_history/%s" % ("future" if dated > start else "past" if dated < start else "now")})
+    return out
+
+def restart_fault_cases(r, n, probe=True):
+    """A restart finds a Pending record of an interrupted attempt (no part, or only failed parts, not aged); a fully funded set is
+    replayed; one of the datastore writes of the recovery path (mark_failed: attempt record, state record; then the new attempt's
+    records) is rejected / applied-but-reported-failed. Afterwards everything must still work: the finale and (C09) the probe set."""
+    out = []
+    kinds = ["rej", "abe"]
+    for i in range(n):
+        rr = r.fork()
+        cfg = mk_cfg(rr, mpp_ms=rr.choice([60000, 120000]))
+        b = CaseBuilder(rr, cfg, 1)
+        amount = rr.choice([1000000, 21000])
+        inv = b.add_invoice(0, amount)
+        need = fee_needed(cfg["policy"], amount)
+        start = rr.choice([0, 1000, 30000])
+        pieces = split_amount(rr, need, 1 + i % 2)
+        script = []
+        if start: script.append({"e": "tick", "ms": start})
+        for p_ in pieces:
+            script += [b.htlc(inv, p_, need, expiry=2400, rel=cfg["policy"][2] + 100), {"e": "drain_step"}, {"e": "drain_step"}]
+        script += [{"e": "drain"}] + pay_ending(rr, rr.choice(["complete", "failed_noparts", "pending_then_done"])) + [{"e": "drain"}]
+        k = (i // 2) % 5
+        c = {"cfg": cfg, "invoices": b.invoices, "preimages": b.preimages, "_script": script, "suffix": [{"e": "finale"}],
+             "init": [{"h": 0, "state": {"pending_t_ms": start, "gen": rr.below(3)}, "parts": rr.choice([[], ["fail"], ["fail", "fail"]])}],
+             "fault_at": [{"k": k, "kind": "write", "fault": kinds[i % 2], "err": rr.choice(["transport", "-1", "210", "nocode"])}],
+             "_probe": b.htlc(inv, need, need, expiry=5000, rel=cfg["policy"][2] + 100),
+             "family": "restart_fault/write@%d/%s" % (k, kinds[i % 2])}
+        out.append(add_probe(c, crash=(i // 10) % 2 == 1) if probe else c)
     return out
 
 def run_prop(prop, tier, seed, profiles=("dev",)):
